@@ -10,7 +10,9 @@ import (
 	"k8s.io/apimachinery/pkg/types"
 
 	pb "istio.io/api/security/v1alpha1"
+	"istio.io/istio/pkg/kube"
 	"istio.io/istio/pkg/kube/kclient"
+	"istio.io/istio/pkg/kube/kubetypes"
 	"istio.io/istio/pkg/security"
 	"istio.io/istio/pkg/util/sets"
 	vp "istio.io/istio/pkg/zzvp"
@@ -177,19 +179,39 @@ func (p verifPods) Get(name, namespace string) *v1.Pod {
 	return nil
 }
 
-type verifIndex struct{ pods []*v1.Pod }
+// Index is what the real kclient informer offers: a string-keyed index fed by the caller's extract function. The
+// authorizer's own extract closure, kclient.CreateIndex (keys = SaNode.String) and index.Lookup run on top of it.
+func (p verifPods) Index(name string, extract func(o *v1.Pod) []string) kclient.RawIndexer {
+	return verifRawIndex{pods: p.pods, extract: extract}
+}
 
-func (x verifIndex) Lookup(k SaNode) []*v1.Pod {
-	var out []*v1.Pod
+type verifRawIndex struct {
+	pods    []*v1.Pod
+	extract func(o *v1.Pod) []string
+}
+
+func (x verifRawIndex) Lookup(key string) []any {
+	var out []any
 	for _, pod := range x.pods {
-		if len(pod.Spec.NodeName) == 0 || len(pod.Spec.ServiceAccountName) == 0 {
-			continue
-		}
-		if pod.Namespace == k.ServiceAccount.Namespace && pod.Spec.ServiceAccountName == k.ServiceAccount.Name && pod.Spec.NodeName == k.Node {
-			out = append(out, pod)
+		for _, k := range x.extract(pod) {
+			if k == key {
+				out = append(out, pod)
+				break
+			}
 		}
 	}
 	return out
+}
+
+// the kube client the authorizer is built from: only ObjectFilter is consulted before kclient.NewFiltered (replaced)
+type verifKube struct{ kube.Client }
+
+func (verifKube) ObjectFilter() kubetypes.DynamicObjectFilter { return nil }
+
+var verifPodsCur verifPods
+
+func verifNewFilteredPods(c kube.Client, filter kclient.Filter) kclient.Client[*v1.Pod] {
+	return verifPodsCur
 }
 
 func verifPod(p string) *v1.Pod {
@@ -204,7 +226,9 @@ func VerifC09ImpersonationGate() {
 	// pod (name, namespace) is a key in the API server
 	vp.Assume(!(pods[0].Name == pods[1].Name && pods[0].Namespace == pods[1].Namespace))
 	trusted := sets.New(types.NamespacedName{Namespace: "a", Name: "s"})
-	na := &ClusterNodeAuthorizer{trustedNodeAccounts: trusted, pods: verifPods{pods: pods}, nodeIndex: verifIndex{pods: pods}}
+	// the real constructor: its pod index (extract closure, SaNode.String keys) is part of the gate
+	verifPodsCur = verifPods{pods: pods}
+	na := NewClusterNodeAuthorizer(verifKube{}, trusted)
 	caller := security.KubernetesInfo{PodName: vp.StringIn("caller.name", 2, "pq"), PodNamespace: vp.StringIn("caller.ns", 2, "ab"), PodUID: vp.StringIn("caller.uid", 2, "12"), PodServiceAccount: vp.StringIn("caller.sa", 2, "st")}
 	reqNs, reqSA := vp.StringIn("req.ns", 2, "ab/"), vp.StringIn("req.sa", 2, "st/")
 	requested := "spiffe://td/ns/" + reqNs + "/sa/" + reqSA
